@@ -118,6 +118,16 @@ func main() {
 			for k, c := range v.Excl {
 				sum.Excl[k] += c
 			}
+			// a recorded finding that shows as a failed end-to-end condition (not as a step the
+			// model can name): listed in the committed file => KNOWN-FINDING, otherwise a violation
+			if e.Known != "" && v.Kind == hx.KindVerify && strings.Contains(v.Detail, e.Known) {
+				if k, ok := kf[e.Known]; ok {
+					if *prop == "" || has(k.Properties, *prop) {
+						sum.KnownLines = append(sum.KnownLines, fmt.Sprintf("KNOWN-FINDING: property=%s %s (%s; witness corpus:%s)", pick(*prop, k.Properties), k.What, k.Name, e.Name))
+					}
+					continue
+				}
+			}
 			if v.Kind != hx.KindNone {
 				var ms []hx.ModelStep
 				if m, err := hx.RunModel([]*hx.HistTrace{t}); err == nil {
